@@ -45,6 +45,9 @@ type mockBuild struct {
 	// StubControl: for a bad -stub cell, whether the very same command without
 	// -stub yields a mock that compiles (then -stub is what breaks it)
 	StubControl map[string]bool
+	// Intolerable: cells whose mock does not compile for another reason than an
+	// inherent name clash; without a violation elsewhere the check ends with exit 2
+	Intolerable []string
 }
 
 var pkgErrRe = regexp.MustCompile(`(?m)^# (corp/cells/[^\s\[]+)`)
@@ -186,6 +189,24 @@ func buildMockHarness(s *Scratch, moqBin string, spec corpus.Spec, only string) 
 		}
 		os.RemoveAll(filepath.Join(root, ctl))
 	}
+	// A mock that does not compile as moq wrote it takes its cell out of the
+	// check. That is acceptable for the one inherent clash the corpus contains
+	// on purpose (an interface method named like a generated helper: "already
+	// declared") and for -stub cells whose control compiles (C07 reports
+	// those); anything else would silently remove exactly the cells that could
+	// show a defect, so it stops the check instead.
+	var intolerable []string
+	for _, cell := range cells {
+		msg, bad := b.BadCells[cell.ID]
+		if !bad || !strings.HasPrefix(msg, "generated mock does not compile") {
+			continue
+		}
+		if strings.Contains(msg, "already declared") || strings.Contains(msg, "redeclared") || (cell.Flags.Stub && b.StubControl[cell.ID]) {
+			continue
+		}
+		intolerable = append(intolerable, cell.ID+" ["+strings.Join(cell.MoqArgs(), " ")+"]: "+firstLines(msg, 2))
+	}
+	b.Intolerable = intolerable // (the other cells are still checked: a violation found there is reported)
 	if len(unsupported) > 0 {
 		return nil, Fatal2("generated mocks use synchronisation the simulator does not own (not a verdict):\n  %s", strings.Join(unsupported, "\n  "))
 	}
@@ -345,6 +366,7 @@ func MockCheck(prop, tier string) error {
 	var nonReplay []string
 	var seedsUsed []uint64
 	var buildInfo []map[string]any
+	var intolerable []string
 	flagSets := map[string]bool{}
 	var workerWall float64
 	seenClass := map[string]bool{}
@@ -374,6 +396,7 @@ func MockCheck(prop, tier string) error {
 			}
 		}
 		buildInfo = append(buildInfo, map[string]any{"corpus_seed": sd, "cells_built": len(b.Cells), "moq_failed": b.MoqFailed, "unbuildable_cells": b.Unbuildable})
+		intolerable = append(intolerable, b.Intolerable...)
 		outDir := filepath.Join(sub.Dir, "out")
 		os.MkdirAll(outDir, 0o755)
 		prefix := filepath.Join(outDir, prop)
@@ -490,6 +513,9 @@ func MockCheck(prop, tier string) error {
 			fmt.Println(l)
 		}
 		return &ExitError{Code: 1}
+	}
+	if len(intolerable) > 0 {
+		return Fatal2("no violation in the cells that could be built, but moq's output does not compile for %d corpus cell(s), which could therefore not be exercised (not a verdict on this property):\n  %s", len(intolerable), strings.Join(head(intolerable, 6), "\n  "))
 	}
 	return nil
 }
